@@ -12,10 +12,10 @@ ENGINES = [
      "kind_free_text": "check runner: subprocess shards, monitor counters, three-valued verdicts, "
                        "mechanism-keyed known findings, evidence and replay files"},
     {"name": "wf+ctl", "path": "vlib/wf.py vlib/wf_tasks.py vlib/ctl.py vlib/engine.py vlib/sched_explore.py",
-     "serves_properties": ["C01", "C05", "C06", "C08", "C09", "C12", "C26", "C27"],
+     "serves_properties": ["C01", "C05", "C06", "C07", "C08", "C09", "C12", "C26", "C27"],
      "kind_free_text": "program generator + set-valued reference interpreter + schedule controller that owns the "
                        "executor and the scheduler event queue (DFS / random / PCT / extreme choosers)"},
-    {"name": "hist", "path": "vlib/hist.py vlib/dbaudit.py", "serves_properties": ["C02", "C23"],
+    {"name": "hist", "path": "vlib/hist.py vlib/dbaudit.py", "serves_properties": ["C02", "C23", "C28"],
      "kind_free_text": "editable task family + execution histories with a differential (empty backend) oracle; raw-SQL "
                        "database auditor"},
     {"name": "hist+faults", "path": "vlib/hist.py vlib/faults.py vlib/dbaudit.py", "serves_properties": ["C03", "C22"],
@@ -137,6 +137,13 @@ reg("C27", "wf+ctl", "options captured at SUBMIT compared with an independent pr
     "Generated job trees with options at definition, call, export and with_export_options level, expression-valued "
     "options, prov=False subtrees and cache=False runs; job.get_options() at the executor boundary must equal the model.",
     SCHED_NOTE)
+reg("C07", "wf+ctl", "cross-run comparison of results and recorded call graphs over schedules x limit configurations",
+    "Every program (incl. handle-passing ones) runs on fresh backends under several completion orders and caps from "
+    "effectively unlimited to fully serial; result, call-node hashes, recorded argument hashes, handle hashes and "
+    "edges read back from the database must agree across all runs.", SCHED_NOTE)
+reg("C28", "hist", "dry-run monitor at the executor boundary and inside task bodies, with the real run on a byte copy",
+    "For generated backend histories the dry run must submit and invoke nothing; a completed dry run must return the "
+    "real run's value and a stopped one must be followed by a real run that invokes a task.", HIST_NOTE)
 
 
 def build():
